@@ -55,10 +55,18 @@ struct Input {
     /// > 0: this many patterned bytes are really streamed into the hasher first; the state read
     /// back afterwards (verif_get_state) becomes the `hook` of the recorded case
     prestream: u64,
+    /// the prestream is given in ONE update call (otherwise in calls of varying sizes)
+    one_call: bool,
+    /// > prestream: a clone of the streamed object is continued with pattern bytes up to this many bytes in
+    /// total and its state read back (reference for a single-call stream of that length)
+    upto: u64,
 }
 
 struct Outcome {
+    /// state read back after the prestream
     pre: Option<Hook>,
+    /// state of the clone continued up to `upto` bytes
+    at_upto: Option<Hook>,
     panicked: bool,
     adatalen: u64,
     apos: usize,
@@ -115,12 +123,24 @@ fn run_typed<H: Hk>(inp: &Input) -> Outcome {
             h.set(&hk.cv, hk.datalen as usize, &hk.buffered);
         }
         let mut pre = None;
+        let mut at_upto = None;
         if inp.prestream > 0 {
             // byte i of the stream is (i mod 251); update calls of varying sizes
             let pat: Vec<u8> = (0..(1usize << 20) + 251).map(|i| (i % 251) as u8).collect();
             let sizes = [1usize << 20, 65537, 4096, 63, 1 << 20, 1, 64, 1000003];
             let mut done: u64 = 0;
             let mut k = 0usize;
+            if inp.one_call {
+                // the same bytes (byte i = i mod 251) in a single update call
+                let unit = 251 * 4096;
+                let mut big: Vec<u8> = Vec::with_capacity(inp.prestream as usize + unit);
+                while (big.len() as u64) < inp.prestream {
+                    big.extend_from_slice(&pat[..unit]);
+                }
+                big.truncate(inp.prestream as usize);
+                Digest::update(&mut h, &big[..]);
+                done = inp.prestream;
+            }
             while done < inp.prestream {
                 let n = (sizes[k % sizes.len()] as u64).min(inp.prestream - done).min(1 << 20) as usize;
                 let off = (done % 251) as usize;
@@ -130,6 +150,13 @@ fn run_typed<H: Hk>(inp: &Input) -> Outcome {
             }
             let (cv, dl, buf, pos) = h.get();
             pre = Some(Hook { cv, datalen: dl as u64, buffered: buf[..pos].to_vec() });
+            if inp.upto > inp.prestream {
+                let mut c = h.clone();
+                let off = (inp.prestream % 251) as usize;
+                Digest::update(&mut c, &pat[off..off + (inp.upto - inp.prestream) as usize]);
+                let (cv, dl, buf, pos) = c.get();
+                at_upto = Some(Hook { cv, datalen: dl as u64, buffered: buf[..pos].to_vec() });
+            }
         }
         if inp.split == inp.msg.len() {
             Digest::update(&mut h, &inp.msg[..]);
@@ -146,11 +173,11 @@ fn run_typed<H: Hk>(inp: &Input) -> Outcome {
         } else {
             h.finalize()
         };
-        (pre, cv, dl, pos, d.to_vec())
+        (pre, at_upto, cv, dl, pos, d.to_vec())
     }));
     match r {
-        Ok((pre, cv, dl, pos, d)) => Outcome { pre, panicked: false, adatalen: dl as u64, apos: pos, acv: cv, digest: d },
-        Err(_) => Outcome { pre: None, panicked: true, adatalen: 0, apos: 0, acv: Vec::new(), digest: Vec::new() },
+        Ok((pre, at_upto, cv, dl, pos, d)) => Outcome { pre, at_upto, panicked: false, adatalen: dl as u64, apos: pos, acv: cv, digest: d },
+        Err(_) => Outcome { pre: None, at_upto: None, panicked: true, adatalen: 0, apos: 0, acv: Vec::new(), digest: Vec::new() },
     }
 }
 
@@ -185,17 +212,49 @@ fn split_for(rng: &mut Rng, len: usize) -> usize {
     s.min(len)
 }
 
-fn gen_inputs(rng: &mut Rng, thorough: bool, streams: &str, real: u64) -> Vec<Input> {
+const BIG_N: u64 = (1u64 << 29) + 64;
+
+fn gen_inputs(rng: &mut Rng, thorough: bool, streams: &str, real: u64, big_update: bool, seed: u64) -> Vec<Input> {
     let mut v = Vec::new();
-    // R: really stream up to just below 2^29 bytes (2^32 bits), then cross the boundary
+    // R: really stream up to just below 2^29 bytes (2^32 bits), then cross the boundary (the streamed object
+    //    itself is continued); which variant comes first rotates with the seed
     for k in 0..real {
         let below = [64u64, 1, 129, 200][(k % 4) as usize];
         let prestream = (1u64 << 29) - below;
         let tail = [65usize, 130, 129 + 64, 300][(k % 4) as usize];
-        let size = SIZES[((k + 1) % 4) as usize];
+        let size = SIZES[((k + 1 + seed) % 4) as usize];
         let msg = content(rng, k as usize, tail);
         let split = split_for(rng, tail);
-        v.push(Input { size, hook: None, msg, split, stream: "real_stream", prestream });
+        let upto = if big_update && k == 0 { BIG_N } else { 0 };
+        v.push(Input { size, hook: None, msg, split, stream: "real_stream", prestream, one_call: false, upto });
+    }
+    // R': ONE update call of 2^29 + 64 bytes (datalen * 8 crosses 2^32 inside a single call), then a tail; the
+    //     state read back after the call must be the state the chunked stream of the same bytes reached
+    if big_update {
+        let size = SIZES[((1 + seed) % 4) as usize];
+        let msg = content(rng, 2, 77);
+        v.push(Input { size, hook: None, msg, split: 77, stream: "single_update_2^29+64", prestream: BIG_N, one_call: true, upto: 0 });
+    }
+    if streams == "reduced" {
+        // A': the padding boundaries for all four variants, every 8th other length (variant rotating)
+        for len in 0..=(3 * 64 + 1) {
+            for (si, &size) in SIZES.iter().enumerate() {
+                let boundary = [0usize, 1, 55, 56, 63, 64, 65, 119, 120, 128].contains(&len);
+                if !boundary && !((len + seed as usize) % 8 == 0 && (len / 8 + seed as usize / 8) % 4 == si) {
+                    continue;
+                }
+                let msg = content(rng, len + si, len);
+                let split = if (len + si) % 2 == 0 { len } else { split_for(rng, len) };
+                v.push(Input { size, hook: None, msg, split, stream: "residues", prestream: 0, one_call: false, upto: 0 });
+            }
+        }
+        // B': four longer messages (one per variant)
+        for (k, &len) in [256usize, 4 * 64 + 55, 1000, 2048 + 17].iter().enumerate() {
+            let size = SIZES[(k + seed as usize) % 4];
+            let msg = content(rng, k, len);
+            let split = split_for(rng, len);
+            v.push(Input { size, hook: None, msg, split, stream: "long", prestream: 0, one_call: false, upto: 0 });
+        }
     }
     if streams == "all" {
         // A: every length 0..3*64+1, all four variants
@@ -210,7 +269,7 @@ fn gen_inputs(rng: &mut Rng, thorough: bool, streams: &str, real: u64) -> Vec<In
                 for r in 0..reps {
                     let msg = content(rng, len + si + r, len);
                     let split = if r == 0 && (len + si) % 2 == 0 { len } else { split_for(rng, len) };
-                    v.push(Input { size, hook: None, msg, split, stream: "residues", prestream: 0 });
+                    v.push(Input { size, hook: None, msg, split, stream: "residues", prestream: 0, one_call: false, upto: 0 });
                 }
             }
         }
@@ -231,7 +290,7 @@ fn gen_inputs(rng: &mut Rng, thorough: bool, streams: &str, real: u64) -> Vec<In
             };
             let msg = content(rng, k, len);
             let split = split_for(rng, len);
-            v.push(Input { size, hook: None, msg, split, stream: "long", prestream: 0 });
+            v.push(Input { size, hook: None, msg, split, stream: "long", prestream: 0, one_call: false, upto: 0 });
         }
     }
     // C: states entered through the hook. datalen D, buffered bytes nbuf, tail.
@@ -246,6 +305,12 @@ fn gen_inputs(rng: &mut Rng, thorough: bool, streams: &str, real: u64) -> Vec<In
     ];
     let offs: [i64; 7] = [-129, -65, -64, -63, -1, 0, 64];
     let mut k = 0usize;
+    let mut nsel = 0usize;
+    // quick tier: a quarter of the (boundary, offset, tail) product (a twelfth for streams = reduced); which
+    // quarter rotates with the (boundary, offset) pair AND the seed, so that every tail class (finalise directly
+    // from the entered state, exact fill of the buffer, ...) is met at every boundary at some seed
+    let m = if thorough { 1 } else if streams == "reduced" { 12 } else { 4 };
+    let mut g = 0usize;
     for &(b, neg) in bounds.iter() {
         for &o in offs.iter() {
             if o < 0 && !neg {
@@ -257,24 +322,26 @@ fn gen_inputs(rng: &mut Rng, thorough: bool, streams: &str, real: u64) -> Vec<In
             let d = if o < 0 { b.wrapping_sub((-o) as u64) } else { b.wrapping_add(o as u64) };
             let nbuf = (d % 64) as usize;
             let tails = [0usize, 1, 64 - nbuf, 65, 130, 64 - nbuf + 64];
+            g += 1;
             for (ti, &tail) in tails.iter().enumerate() {
                 k += 1;
-                if !thorough && (k % 4 != 0) {
+                if (ti + 5 * g + seed as usize) % m != 0 {
                     continue;
                 }
-                let size = SIZES[(k / 4) % 4];
+                nsel += 1;
+                let size = SIZES[(nsel + seed as usize / 4) % 4];
                 let mut cv = vec![0u8; 128];
-                if k % 7 == 0 {
+                if nsel % 7 == 0 {
                     cv = rng.bytes(128);
                 } else {
                     rng.fill(&mut cv);
                 }
                 // one case in 12 enters an inconsistent state (datalen unrelated to the buffer)
-                let nb = if k % 24 == 8 { (nbuf + 1 + rng.below(62) as usize) % 64 } else { nbuf };
+                let nb = if nsel % 12 == 5 { (nbuf + 1 + rng.below(62) as usize) % 64 } else { nbuf };
                 let hook = Hook { cv, datalen: d, buffered: content(rng, k, nb) };
                 let msg = content(rng, k + ti, tail);
                 let split = split_for(rng, tail);
-                v.push(Input { size, hook: Some(hook), msg, split, stream: "hook", prestream: 0 });
+                v.push(Input { size, hook: Some(hook), msg, split, stream: "hook", prestream: 0, one_call: false, upto: 0 });
             }
         }
     }
@@ -290,10 +357,21 @@ fn digest_main(a: &Args) {
     let runner = a.str("runner", "run_c06");
     let debug = cfg!(debug_assertions);
     std::panic::set_hook(Box::new(|_| {}));
+    // back end of the crate's own `dispatch!` (compressor.rs `f8`): 0 = whatever the CPU detection picks,
+    // 1..5 = SSE2, SSSE3, SSE4.1, AVX, AVX2 (hook H1): without this only the arm the host selects ever runs
+    let level = a.u64("level", 0) as u8;
+    #[cfg(all(cryptocorrosion_verif, not(feature = "no_simd")))]
+    {
+        jh_x86_64::simd::x86_64::verif::set_level(level);
+        assert_eq!(jh_x86_64::simd::x86_64::verif::level(), level);
+    }
 
     let mut rng = Rng::new(seed ^ 0x6a68_0006);
     let real = a.u64("real", 0);
-    let inputs = gen_inputs(&mut rng, thorough, &streams, real);
+    let big_update = a.u64("big-update", 0) != 0;
+    let inputs = gen_inputs(&mut rng, thorough, &streams, real, big_update, seed);
+    let mut chunked_at_big: Option<Hook> = None;
+    let (mut len_checked, mut bad_len) = (0usize, 0usize);
     let mut direct: Vec<String> = Vec::new();
     let mut coq = Vec::new();
     let mut js = Vec::new();
@@ -312,9 +390,22 @@ fn digest_main(a: &Args) {
         // a really streamed prefix: the case records the state read back after it; the counter
         // must be the number of bytes streamed (direct statement of C17 on the implementation)
         let mut eff = inp0.clone();
+        if o.at_upto.is_some() {
+            chunked_at_big = o.at_upto.clone();
+        }
         if inp0.prestream > 0 {
             match &o.pre {
                 Some(pre) => {
+                    if inp0.one_call {
+                        // the state after ONE call must be the state after the same bytes in many calls
+                        match &chunked_at_big {
+                            Some(r) if r != pre => direct.push(format!(
+                                "{{\"what\":\"state after ONE update call of 2^29+64 bytes differs from the state after the same bytes in many calls\",\"size\":{},\"bytes\":{},\"one_call\":{{\"cv\":{},\"datalen\":{},\"pos\":{}}},\"many_calls\":{{\"cv\":{},\"datalen\":{},\"pos\":{}}}}}",
+                                inp0.size, inp0.prestream, jstr(&hex(&pre.cv)), pre.datalen, pre.buffered.len(), jstr(&hex(&r.cv)), r.datalen, r.buffered.len()
+                            )),
+                            _ => {}
+                        }
+                    }
                     if pre.datalen != inp0.prestream || pre.buffered.len() as u64 != inp0.prestream % 64 {
                         direct.push(format!(
                             "{{\"what\":\"datalen after really streaming\",\"size\":{},\"streamed\":{},\"datalen\":{},\"pos\":{}}}",
@@ -342,6 +433,31 @@ fn digest_main(a: &Args) {
             }
         }
         distinct.insert((inp.size, inp.hook.clone(), inp.msg.clone(), inp.split));
+        // the Coq runner cuts the digest literal to size/8 bytes: the length actually returned is checked here
+        let want_len = match inp.size { 224 => 28usize, 256 => 32, 384 => 48, _ => 64 };
+        // the property speaks about messages below 2^61 bytes (64-bit bit-length field): entered states whose
+        // total lies at or beyond are pinned to the behaviour as written and tagged, so that a later repair
+        // there (a wider length field) can be told from a violation
+        let domain = match &inp.hook {
+            Some(h) if (h.datalen as u128) + (inp.msg.len() as u128) >= 1u128 << 61 =>
+                "beyond the property's domain: datalen + message >= 2^61 bytes (behaviour as written is pinned: overflow checks panic, otherwise datalen * 8 wraps)",
+            Some(h) if h.datalen % 64 != h.buffered.len() as u64 => "inconsistent entered state (datalen unrelated to the buffer): model only, the specification does not apply",
+            _ => "within",
+        };
+        if !o.panicked {
+            len_checked += 1;
+            if o.digest.len() != want_len {
+                bad_len += 1;
+                if direct.len() < 12 {
+                    direct.push(format!(
+                        "{{\"what\":\"the digest returned does not have the variant's length\",\"size\":{},\"stream\":{},\"msg\":{},\"split\":{},\"hook_datalen\":{},\"digest_len\":{},\"expected_digest_len\":{},\"digest\":{}}}",
+                        inp.size, jstr(inp.stream), jstr(&hex(&inp.msg)), inp.split,
+                        match &inp.hook { Some(h) => format!("\"0x{:x}\"", h.datalen), None => "null".to_string() },
+                        o.digest.len(), want_len, jstr(&hex(&o.digest))
+                    ));
+                }
+            }
+        }
         let empty = Hook { cv: Vec::new(), datalen: 0, buffered: Vec::new() };
         let hk = inp.hook.as_ref().unwrap_or(&empty);
         coq.push(format!(
@@ -363,10 +479,13 @@ fn digest_main(a: &Args) {
             nlit(&o.digest)
         ));
         let j = format!(
-            "{{\"size\":{},\"profile\":{},\"stream\":{},\"hook\":{},\"msg_len\":{},\"msg\":{},\"split\":{},\"outcome\":{},\"after_updates\":{{\"datalen\":{},\"pos\":{},\"cv\":{}}},\"digest\":{}}}",
+            "{{\"size\":{},\"profile\":{},\"backend_level\":{},\"stream\":{},\"domain\":{},\"digest_len\":{},\"hook\":{},\"msg_len\":{},\"msg\":{},\"split\":{},\"outcome\":{},\"after_updates\":{{\"datalen\":{},\"pos\":{},\"cv\":{}}},\"digest\":{}}}",
             inp.size,
             jstr(if debug { "debug" } else { "release" }),
+            level,
             jstr(inp.stream),
+            jstr(domain),
+            o.digest.len(),
             match &inp.hook {
                 None => "null".to_string(),
                 Some(h) => format!(
@@ -403,7 +522,7 @@ fn digest_main(a: &Args) {
     std::fs::write(format!("{}/cases.json", out), format!("[{}]", js.join(",\n"))).unwrap();
     let streams_js: Vec<String> = by_stream.iter().map(|(k, v)| format!("{}:{}", jstr(k), v)).collect();
     println!(
-        "{{\"evaluations\":{},\"distinct_nontrivial\":{},\"profile\":{},\"by_size\":{{\"224\":{},\"256\":{},\"384\":{},\"512\":{}}},\"by_stream\":{{{}}},\"single_update_call\":{},\"panics\":{},\"hook_total_at_or_beyond_2_61\":{},\"hook_inconsistent_states\":{},\"max_msg_len\":{},\"f8_calls_total\":{},\"really_streamed_bytes\":{},\"direct_failures\":[{}],\"samples\":[{}]}}",
+        "{{\"evaluations\":{},\"distinct_nontrivial\":{},\"profile\":{},\"by_size\":{{\"224\":{},\"256\":{},\"384\":{},\"512\":{}}},\"by_stream\":{{{}}},\"single_update_call\":{},\"panics\":{},\"hook_total_at_or_beyond_2_61\":{},\"hook_inconsistent_states\":{},\"max_msg_len\":{},\"f8_calls_total\":{},\"really_streamed_bytes\":{},\"single_update_of_2_29_plus_64_bytes\":{},\"backend_level\":{},\"digest_lengths_checked\":{},\"digests_of_wrong_length\":{},\"hook_selection_rotation\":{},\"direct_failures\":[{}],\"samples\":[{}]}}",
         inputs.len(),
         distinct.len(),
         jstr(if debug { "debug" } else { "release" }),
@@ -418,7 +537,12 @@ fn digest_main(a: &Args) {
         inconsistent,
         max_len,
         blocks_total,
-        inputs.iter().map(|i| i.prestream).sum::<u64>(),
+        inputs.iter().map(|i| i.prestream.max(i.upto)).sum::<u64>(),
+        inputs.iter().filter(|i| i.one_call).count(),
+        level,
+        len_checked,
+        bad_len,
+        seed % 12,
         direct.join(","),
         samples.join(",")
     );
@@ -576,6 +700,10 @@ fn f8_main(a: &Args) {
     let runner = a.str("runner", "run_c06_f8");
     let debug = cfg!(debug_assertions);
     std::panic::set_hook(Box::new(|_| {}));
+    // machine 0 ("host-dispatch") goes through the crate's `dispatch!`: with --level 1..5 its other arms run
+    let level = a.u64("level", 0) as u8;
+    #[cfg(all(cryptocorrosion_verif, not(feature = "no_simd")))]
+    jh_x86_64::simd::x86_64::verif::set_level(level);
     let mut rng = Rng::new(seed ^ 0x6a68_00f8);
     let inputs = f8_inputs(&mut rng, thorough);
     let machs: Vec<usize> = (0..5).filter(|&m| host_supports(m)).collect();
@@ -641,7 +769,7 @@ fn f8_main(a: &Args) {
     let streams_js: Vec<String> = by_stream.iter().map(|(k, v)| format!("{}:{}", jstr(k), v)).collect();
     let mnames: Vec<String> = machs.iter().map(|&m| jstr(MACH_NAMES[m])).collect();
     println!(
-        "{{\"evaluations\":{},\"distinct_nontrivial\":{},\"profile\":{},\"inputs\":{},\"coq_cases\":{},\"machines\":[{}],\"inputs_on_which_machines_disagree\":{},\"panics\":{},\"by_stream\":{{{}}},\"direct_failures\":[],\"samples\":[{}]}}",
+        "{{\"evaluations\":{},\"distinct_nontrivial\":{},\"profile\":{},\"inputs\":{},\"coq_cases\":{},\"machines\":[{}],\"inputs_on_which_machines_disagree\":{},\"panics\":{},\"backend_level_of_host_dispatch\":{},\"by_stream\":{{{}}},\"direct_failures\":[],\"samples\":[{}]}}",
         evaluations,
         distinct.len(),
         jstr(if debug { "debug" } else { "release" }),
@@ -650,6 +778,7 @@ fn f8_main(a: &Args) {
         mnames.join(","),
         disagreements,
         panics,
+        level,
         streams_js.join(","),
         samples.join(",")
     );
@@ -671,6 +800,8 @@ fn repro() {
             split: tail,
             stream: "repro",
             prestream: 0,
+            one_call: false,
+            upto: 0,
         };
         let o = run_input(&inp);
         println!(
@@ -687,7 +818,7 @@ fn repro() {
 fn main() {
     let argv: Vec<String> = std::env::args().collect();
     if argv.len() < 2 {
-        eprintln!("usage: h_jh digest|f8|repro [--seed N --shards N --out DIR --tier quick|thorough --streams all|hook --runner R]");
+        eprintln!("usage: h_jh digest|f8|repro [--seed N --shards N --out DIR --tier quick|thorough --streams all|reduced|hook --real N --big-update 0|1 --level 0..5 --runner R]");
         std::process::exit(2);
     }
     let a = Args::parse(&argv[2..]);
